@@ -145,7 +145,12 @@ META["C05"] = dict(
          "is a legal sequential map history ending in the final contents, each call's entry is appended by one of its own sections, the "
          "results returned are the log's), C05_real_time, C05_linearizable_owned (one writer per key suffices, for EVERY schedule), "
          "C05_read_your_writes, C05_keys_do_not_interfere (unconditional frame), C05_freelist_exactly_once / C05_no_leak, and decide-"
-         "witnesses that the premise is needed (Update error, lost Put with leaked record, double free = known finding D17). "
+         "witnesses that the premise is needed (Update error, lost Put with leaked record, double free = known finding D17). Middle layer "
+         "Sth/Model/ConcPools.lean (the two-pool protocol of the index and of the primary under concurrent Flush, sections at the "
+         "hook points): C05_pools_view_invariant (with the code's locking, for every interleaving of writers, readers and flushers no "
+         "flush section changes any bucket's view and a read returns the view at its info section), C05_pools_section_effect, and decide "
+         "witnesses for the two seeded defects that lived there (flushLock taken after the swap: a completed update lost for good; a "
+         "reader skipping the pools: stale value). "
          "Non-interference INSIDE one bucket's record list is C08's frame theorems.",
     note=SCHED_NOTE,
 )
@@ -259,8 +264,13 @@ META["C09"] = dict(
          "contents returns), C09_reads_preserved, C09_mismatch_refused (a different index file-size limit - whatever the bits - or "
          "primary file-size limit is refused with the specific error and the directory returned is the input directory), "
          "C09_same_bits_no_translation, C09_strip_total (the premise on keys suffices for both bit sizes), C09_unspecified_ifs (the "
-         "observation that IndexFileSize(0) silently switches to the default limit: contents preserved). Known finding D13 (no atomic "
-         "swap) concerns crashes inside the translation, outside these theorems.",
+         "observation that IndexFileSize(0) silently switches to the default limit: contents preserved). The same theorems for stores "
+         "whose history contains GARBAGE COLLECTION (Sth/Props/C09G.lean): C09_translate_preserves_contents_igc (index GC cycles, "
+         "complete or cut at any poll, before AND after the bit-size change, both primaries: the old table is read through the snapshot "
+         "or the rescan of a span log with deleted spans and an advanced first file), C09_translate_preserves_contents_gc (primary GC "
+         "too, under GcCountersOK; no D11 premise needed: the translation follows a clean Close), C09_translate_keeps_gc_invariant (the "
+         "re-bucketed store satisfies the GC invariant, so all of C04 applies to it), refusals and same-bits for the same histories. "
+         "Known finding D13 (no atomic swap) concerns crashes inside the translation, outside these theorems.",
     note=SEQ_NOTE,
 )
 
